@@ -120,50 +120,65 @@ Proof. exact metamer_mse_zero. Qed.
 
 (* ---- call history: a loss object returns what a fresh object returns, for every history of calls, gaze
    lists edited in place and tensors edited in place, IF AND ONLY IF the cache keys contain every argument
-   the cached value depends on (and hold it by value) *)
-Theorem C17_blur_history_iff : forall d, sound_blur d = true <-> history_independent (blur_step d) blur_init.
+   the cached value depends on (held by value) AND the map is built from the arguments of the call (not from a
+   flag remembered from the previous fill).  c0 is the configuration (alpha, width, distance, mode, equi) the
+   loss object was constructed with; RadiallyVaryingBlur.blur takes it as an argument of every call. *)
+Theorem C17_rvb_history_iff : forall d, sound_rvb d = true <-> history_independent (rvb_step d) blur_init.
+Proof. exact rvb_iff. Qed.
+Theorem C17_blur_history_iff : forall d, sound_blur d = true <-> forall c0, history_independent (blur_step d c0) blur_init.
 Proof. exact blur_iff. Qed.
-Theorem C17_metameric_history_iff : forall d, sound_met d = true <-> history_independent (met_step d) met_init.
+Theorem C17_metameric_history_iff : forall d, sound_met d = true <-> forall c0, history_independent (met_step d c0) met_init.
 Proof. exact met_iff. Qed.
-Theorem C17_metamer_mse_history_iff : forall d, sound_mse d = true <-> history_independent (mse_step d) mse_init.
+Theorem C17_metamer_mse_history_iff : forall d, sound_mse d = true <-> forall c0, history_independent (mse_step d c0) mse_init.
 Proof. exact mse_iff. Qed.
-Theorem C17_blur_history_independent : history_independent (blur_step repaired) blur_init.
-Proof. exact (blur_sound repaired eq_refl). Qed.
-Theorem C17_metameric_history_independent : history_independent (met_step repaired) met_init.
-Proof. exact (met_sound repaired eq_refl). Qed.
-Theorem C17_metamer_mse_history_independent : history_independent (mse_step repaired) mse_init.
-Proof. exact (mse_sound repaired eq_refl). Qed.
+Theorem C17_rvb_history_independent : history_independent (rvb_step repaired) blur_init.
+Proof. exact (rvb_sound repaired eq_refl). Qed.
+Theorem C17_blur_history_independent : forall c0, history_independent (blur_step repaired c0) blur_init.
+Proof. exact (fun c0 => blur_sound repaired c0 eq_refl). Qed.
+Theorem C17_metameric_history_independent : forall c0, history_independent (met_step repaired c0) met_init.
+Proof. exact (fun c0 => met_sound repaired c0 eq_refl). Qed.
+Theorem C17_metamer_mse_history_independent : forall c0, history_independent (mse_step repaired c0) mse_init.
+Proof. exact (fun c0 => mse_sound repaired c0 eq_refl). Qed.
 (* cache hits of the repaired discipline: reuse happens exactly when the stored key equals the call's arguments *)
-Theorem C17_lod_hit_iff_key : forall e s sh g, rvb_ok s ->
-  (rvb_hit e s sh g = true <-> s = Some (sh, GVal (gaze_at e g), Lod sh (gaze_at e g))).
+Theorem C17_lod_hit_iff_key : forall e s sh c g, rvb_ok s ->
+  (rvb_hit e s sh c g = true <-> s = Some (sh, c, GVal (gaze_at e g), Lod sh c (gaze_at e g))).
 Proof. exact rvb_hit_iff_key. Qed.
-Theorem C17_lod_miss_recomputes : forall d e s sh g, rvb_hit e s sh g = false -> snd (rvb_lookup d e s sh g) = Lod sh (gaze_at e g).
+Theorem C17_lod_miss_recomputes : forall d e s sh c g, cfg_arg d = true -> rvb_hit e s sh c g = false -> snd (rvb_lookup d e s sh c g) = Lod sh c (gaze_at e g).
 Proof. exact rvb_miss_recomputes. Qed.
-Theorem C17_metameric_reuse_iff_key : forall e c kg st rvb i t g, c_shape (tensor_at e i) = c_shape (tensor_at e t) ->
-  (nth 0 (met_events repaired e (Some (c, kg, st), rvb) i t g) 1%Z = 0%Z <-> c = tensor_at e t /\ kg = gaze_at e g).
+Theorem C17_metameric_reuse_iff_key : forall c0 e c kg st rvb i t g cf, c_shape (tensor_at e i) = c_shape (tensor_at e t) ->
+  (nth 0 (met_events repaired c0 e (Some (c, kg, st), rvb) i t g cf) 1%Z = 0%Z <-> c = tensor_at e t /\ kg = gaze_at e g).
 Proof. exact met_reuse_iff_key. Qed.
-Theorem C17_metamer_mse_reuse_iff_key : forall e c kg m rvb i t g, c_shape (tensor_at e i) = c_shape (tensor_at e t) ->
-  (nth 0 (mse_events repaired e (Some (TVal c, kg, m), rvb) i t g) 1%Z = 0%Z <-> c = tensor_at e t /\ kg = gaze_at e g).
+Theorem C17_metamer_mse_reuse_iff_key : forall c0 e c kg m rvb i t g cf, c_shape (tensor_at e i) = c_shape (tensor_at e t) ->
+  (nth 0 (mse_events repaired c0 e (Some (TVal c, kg, m), rvb) i t g cf) 1%Z = 0%Z <-> c = tensor_at e t /\ kg = gaze_at e g).
 Proof. exact mse_reuse_iff_key. Qed.
-Theorem C17_metameric_fresh_descriptor : forall e i t g, c_shape (tensor_at e i) = c_shape (tensor_at e t) ->
-  snd (met_step repaired e met_init i t g) =
-  MetOut (tensor_at e i) (Lod (c_shape (tensor_at e t)) (gaze_at e g)) (Stats (tensor_at e t) (Lod (c_shape (tensor_at e t)) (gaze_at e g))).
+Theorem C17_metameric_fresh_descriptor : forall c0 e i t g c, c_shape (tensor_at e i) = c_shape (tensor_at e t) ->
+  snd (met_step repaired c0 e met_init i t g c) =
+  MetOut (tensor_at e i) (Lod (c_shape (tensor_at e t)) c0 (gaze_at e g)) (Stats (tensor_at e t) (Lod (c_shape (tensor_at e t)) c0 (gaze_at e g))).
 Proof. exact repaired_met_fresh. Qed.
 (* the discipline odak shipped with (target statistics keyed on target values only, metamer keyed on object
    identity, gaze list held by reference) is refuted by two calls *)
 Theorem C17_legacy_metameric_refuted : exists e i t g g',
-  run (met_step legacy) e met_init [Call i t g; Call i t g'] <> run_fresh (met_step legacy) met_init e [Call i t g; Call i t g'].
+  run (met_step legacy 0) e met_init [Call i t g 0; Call i t g' 0] <> run_fresh (met_step legacy 0) met_init e [Call i t g 0; Call i t g' 0].
 Proof. exact legacy_met_refuted. Qed.
 Theorem C17_legacy_metamer_mse_refuted : exists e i t g g',
-  run (mse_step legacy) e mse_init [Call i t g; Call i t g'] <> run_fresh (mse_step legacy) mse_init e [Call i t g; Call i t g'].
+  run (mse_step legacy 0) e mse_init [Call i t g 0; Call i t g' 0] <> run_fresh (mse_step legacy 0) mse_init e [Call i t g 0; Call i t g' 0].
 Proof. exact legacy_mse_refuted. Qed.
 Theorem C17_legacy_blur_refuted : exists e i t g v,
-  run (blur_step legacy) e blur_init [Call i t g; SetGaze g v; Call i t g] <> run_fresh (blur_step legacy) blur_init e [Call i t g; SetGaze g v; Call i t g].
+  run (blur_step legacy 0) e blur_init [Call i t g 0; SetGaze g v; Call i t g 0] <> run_fresh (blur_step legacy 0) blur_init e [Call i t g 0; SetGaze g v; Call i t g 0].
 Proof. exact legacy_blur_refuted. Qed.
 Theorem C17_legacy_metameric_size_crash : exists e i t i' t' g,
-  nth 1 (run (met_step legacy) e met_init [Call i t g; Call i' t' g]) Crash = Crash /\
-  nth 1 (run_fresh (met_step legacy) met_init e [Call i t g; Call i' t' g]) Crash <> Crash.
+  nth 1 (run (met_step legacy 0) e met_init [Call i t g 0; Call i' t' g 0]) Crash = Crash /\
+  nth 1 (run_fresh (met_step legacy 0) met_init e [Call i t g 0; Call i' t' g 0]) Crash <> Crash.
 Proof. exact legacy_met_crash. Qed.
+(* a map builder selected by a flag read from the object (`if not self.equi:`) instead of the argument is refuted by
+   two calls in a non-default configuration, and is invisible in the default one *)
+Theorem C17_flag_from_self_refuted : exists e i t g g',
+  run (blur_step flag_from_self 1) e blur_init [Call i t g 1; Call i t g' 1] <> run_fresh (blur_step flag_from_self 1) blur_init e [Call i t g 1; Call i t g' 1] /\
+  run (met_step flag_from_self 1) e met_init [Call i t g 1; Call i t g' 1] <> run_fresh (met_step flag_from_self 1) met_init e [Call i t g 1; Call i t g' 1] /\
+  run (mse_step flag_from_self 1) e mse_init [Call i t g 1; Call i t g' 1] <> run_fresh (mse_step flag_from_self 1) mse_init e [Call i t g 1; Call i t g' 1] /\
+  run (rvb_step flag_from_self) e blur_init [Call i t g 1; Call i t g' 1] <> run_fresh (rvb_step flag_from_self) blur_init e [Call i t g 1; Call i t g' 1] /\
+  run (blur_step flag_from_self 0) e blur_init [Call i t g 0; Call i t g' 0] = run_fresh (blur_step flag_from_self 0) blur_init e [Call i t g 0; Call i t g' 0].
+Proof. exact flag_from_self_refuted. Qed.
 
 (* non-vacuity: the hypotheses are satisfiable and the machines produce distinguishable results *)
 Example C17_instance :
@@ -171,9 +186,10 @@ Example C17_instance :
   tv [[[1; 1]; [1; 1]]]%R = 0%R /\
   (hist_loss 4 0 1 [[0; 1 # 2; 1]] [[0; 0; 1 # 4]] == 1)%Q /\
   sound_blur repaired = true /\ sound_met repaired = true /\ sound_mse repaired = true /\ sound_met legacy = false /\
-  machine_run 2 repaired w_env w_ops = machine_fresh 2 repaired w_env w_ops /\
-  machine_run 2 legacy w_env w_ops <> machine_fresh 2 legacy w_env w_ops /\
-  nth 2 (machine_fresh 2 repaired w_env w_ops) [] <> nth 3 (machine_fresh 2 repaired w_env w_ops) [].
+  machine_run 2 repaired 1 w_env w_ops = machine_fresh 2 repaired 1 w_env w_ops /\
+  machine_run 2 legacy 1 w_env w_ops <> machine_fresh 2 legacy 1 w_env w_ops /\
+  nth 2 (machine_fresh 2 repaired 1 w_env w_ops) [] <> nth 3 (machine_fresh 2 repaired 1 w_env w_ops) [] /\
+  machine_fresh 4 repaired 0 w_env [Call 1%nat 1%nat 0%nat 0] <> machine_fresh 4 repaired 0 w_env [Call 1%nat 1%nat 0%nat 1].
 Proof.
   repeat split; try reflexivity; try (vm_compute; discriminate).
   - unfold mse, rmean, sqd. simpl. field.
